@@ -13,6 +13,7 @@ func main() {
 		c19.RunDecoders(o)  // (c) decoders of untrusted bytes and the handlers behind them
 		c19.RunCritical(o)  // (c) unknown fields / oversize lists at every nesting position of the critical messages
 		c19.RunWrappers(o)  // (b) RLP-backed transactions: one signed Ethereum payload, one wrapper
+		c19.RunMerkle(o)    // (b) Merkle roots: transaction root / validator root, same-length injectivity
 		c19.RunHandlers(o)  // (c) signed-but-malformed consensus messages through the real bft.HandleMessage
 	})
 }
